@@ -530,6 +530,10 @@ fn stub_gcm_new(key: &Key, nonce: &Nonce, _aad: &[u8]) -> Result<AesGcm256, Erro
     }
     Ok(model_build(key, nonce))
 }
+/// where and how a non-authentic chunk's recomputed tag differs from the stored one (set by the
+/// harness: any index 0..16, any non-zero bit pattern)
+static mut TAG_DIFF_AT: usize = 0;
+static mut TAG_DIFF_BITS: u8 = 1;
 /// stub for `AesGcm256::decrypt` — the IDEAL-MAC ASSUMPTION: the recomputed tag equals the stored
 /// one iff the chunk under this nonce counter is authentic (ciphertext and index original)
 fn stub_gcm_decrypt(c: &mut AesGcm256, _buffer: &mut [u8]) -> Tag {
@@ -538,7 +542,11 @@ fn stub_gcm_decrypt(c: &mut AesGcm256, _buffer: &mut [u8]) -> Tag {
     let mut t = Tag::default();
     t.as_mut_slice().copy_from_slice(&TAGPAT);
     if !authentic(ctr) {
-        t[0] ^= 1;
+        // differs from the stored tag in ONE byte at a symbolic index and in a symbolic non-zero
+        // bit pattern: a comparison that skips any byte or bit is caught
+        let at = unsafe { TAG_DIFF_AT };
+        let bits = unsafe { TAG_DIFF_BITS };
+        t[at] ^= bits;
     }
     t
 }
@@ -601,7 +609,7 @@ fn shrink_only_resize<T: Clone, A: core::alloc::Allocator>(v: &mut Vec<T, A>, ne
 //@ bounds: SCALED build (feature mla_verif: chunk = 4 bytes, tag = 16 bytes unchanged); source delivering everything asked; inner length n <= 3*20+64, any start position q <= n (so every remaining length 0..=3 chunks incl. 1..15 bytes), any chunk counter, arbitrary previous cache
 //@ stubs: AesGcm256::new -> same struct via model constructors + ghost log; AesGcm256::decrypt -> IDEAL MAC (tag matches iff chunk authentic); alloc::io::default_read_to_end -> single read into spare capacity; alloc::fmt::format; From<mla::Error> for io::Error
 //@ outside: that AES-GCM is a secure MAC
-//@ replay: verif_replay_encrypt::enc_load q:u64 n:u64 ccn:u32 auth:bool
+//@ replay: verif_replay_encrypt::enc_load q:u64 n:u64 ccn:u32 auth:bool cl:u64 cp:u64 tag_at:usize tag_bits:u8
 #[kani::proof]
 #[kani::unwind(34)]
 #[kani::stub(alloc::fmt::format, nofmt)]
@@ -620,7 +628,7 @@ fn h_enc_load_auth_refines() {
 //@ bounds: SCALED build (feature mla_verif: chunk = 4 bytes, tag = 16 bytes unchanged); source one of whose reads delivers at most 7 bytes (auth: the chunk read; unauth: the read skipping the tag); inner length n <= 3*20+64, any start position q <= n (so every remaining length 0..=3 chunks incl. 1..15 bytes), any chunk counter, arbitrary previous cache
 //@ stubs: AesGcm256::new -> same struct via model constructors + ghost log; AesGcm256::decrypt -> IDEAL MAC (tag matches iff chunk authentic); alloc::io::default_read_to_end -> exactly two reads into spare capacity; alloc::fmt::format; From<mla::Error> for io::Error
 //@ outside: that AES-GCM is a secure MAC
-//@ replay: verif_replay_encrypt::enc_load short=1 q:u64 n:u64 ccn:u32 auth:bool
+//@ replay: verif_replay_encrypt::enc_load short=1 q:u64 n:u64 ccn:u32 auth:bool cl:u64 cp:u64 tag_at:usize tag_bits:u8
 #[kani::proof]
 #[kani::unwind(34)]
 #[kani::stub(alloc::fmt::format, nofmt)]
@@ -649,10 +657,18 @@ fn load_auth_body(short: bool) {
     let cl: u64 = kani::any();
     let cp: u64 = kani::any();
     kani::assume(cl <= SPEC_CHUNK && cp <= SPEC_CHUNK);
+    let diff_at: usize = kani::any();
+    let diff_bits: u8 = kani::any();
+    kani::assume(diff_at < 16 && diff_bits != 0);
+    unsafe {
+        TAG_DIFF_AT = diff_at;
+        TAG_DIFF_BITS = diff_bits;
+    }
     let mut src = Abs::new(n, q);
     src.short_reads = short;
     let mut l = mk_internal(src, ccn, cl, cp);
     let rem = n - q;
+    kani::cover!(!auth && diff_at == 15 && rem >= SPEC_TAG, "tags differ only in their last byte");
     kani::cover!(rem == 0, "nothing left");
     kani::cover!(rem > 0 && rem < SPEC_TAG, "final chunk shorter than its tag");
     kani::cover!(rem == SPEC_TAG, "empty final chunk");
